@@ -310,7 +310,9 @@ func r14_3(r *Report, p *Program) {
 						return true, ""
 					}
 					// zero-length loop over the candidates
-					if pa.Mentions(func(a string) bool { return strings.Contains(a, "findPotentialParents") }) {
+					if pa.Has(false, func(a string) bool {
+						return strings.Contains(a, " < call(builtin.len)(call(controller/composite.parentController.findPotentialParents")
+					}) {
 						return true, ""
 					}
 					return false, "orphan dropped without consulting findPotentialParents"
@@ -363,8 +365,14 @@ func r14_3(r *Report, p *Program) {
 						return strings.Contains(a, ".resolveControllerRef)(") && strings.HasSuffix(a, " == nil)")
 					}):
 						return true, ""
-					case pa.Has(false, func(a string) bool { return strings.HasSuffix(a, "#1") && strings.HasPrefix(a, "assert<") }):
-						return true, "" // not an object and not a tombstone
+					case pa.Has(false, func(a string) bool { return a == "assert<*unstructured.Unstructured>(p1)#1" }) &&
+						!pa.Has(true, func(a string) bool { return a == "assert<*unstructured.Unstructured>(p1)#1" }) &&
+						(pa.Has(false, func(a string) bool { return a == "assert<cache.DeletedFinalStateUnknown>(p1)#1" }) ||
+							pa.Has(true, func(a string) bool { return a == "assert<cache.DeletedFinalStateUnknown>(p1)#1" }) &&
+								pa.Has(false, func(a string) bool {
+									return strings.HasPrefix(a, "assert<*unstructured.Unstructured>(") && strings.HasSuffix(a, ".Obj)#1")
+								})):
+						return true, "" // not an object, and not a tombstone or a tombstone of something else
 					}
 					return false, "deleted child dropped although it has a resolvable controller"
 				})
@@ -410,11 +418,68 @@ func r14_3(r *Report, p *Program) {
 				ok, why = false, "never resolves a parent"
 			}
 			r.Check(rule, FK(f), p.Pos(f.Pos()), ok, "non-nil ⇒ group ∧ kind ∧ found ∧ UID equal ∧ (finalizer ∨ matches)", why)
+			// converse: the reference is given up (nil) only for one of the stated reasons
+			okC, whyC := err == nil, ""
+			for _, pa := range paths {
+				rt, isR := pa.End.(*ssa.Return)
+				if !isR || !isNilConst(engine.RetVal(rt, 0)) {
+					continue
+				}
+				obj := "call(controller/common.GetObject)("
+				reason := pa.Has(false, func(a string) bool {
+					return strings.Contains(a, "ParseAPIVersion)(p2.APIVersion)#0") && strings.Contains(a, ".Group") && !strings.Contains(a, "Map.Get)(")
+				}) ||
+					pa.Has(false, func(a string) bool {
+						return strings.Contains(a, "p2.Kind") && strings.Contains(a, " == ") && !strings.Contains(a, "Map.Get)(")
+					}) ||
+					pa.Has(true, func(a string) bool {
+						return (strings.HasPrefix(a, "(call(controller/common.GroupKindMap.Get)(p0.parent") || strings.HasPrefix(a, "(call(controller/common.InformerMap.Get)(p0.parent")) && strings.HasSuffix(a, " == nil)")
+					}) ||
+					pa.Has(false, func(a string) bool {
+						return strings.HasPrefix(a, "(call(controller/common.GetObject)(") && strings.HasSuffix(a, "#1 == nil)")
+					}) ||
+					pa.Has(false, func(a string) bool {
+						return strings.Contains(a, "GetUID)(call(controller/common.GetObject)(") && strings.Contains(a, "p2.UID") && strings.Contains(a, " == ")
+					}) ||
+					matchNegPrefix(pa, comp, obj) && finNegPrefix(pa, obj)
+				if !reason {
+					okC, whyC = false, "the owner reference is not resolved although group, kind, name and UID agree and the parent matches the selector or carries the finalizer; path: "+pa.Cond()
+				}
+			}
+			r.Check(rule, FK(f)+"[nil-only-for-a-reason]", p.Pos(f.Pos()), okC, "nil ⇒ group/kind mismatch ∨ not found ∨ UID differs ∨ (¬finalizer ∧ ¬matches)", whyC)
 			// namespace of the lookup
 			okNs := false
 			for _, cs := range callsTo(f, false, "common.GetObject") {
 				ns := E(cs.Common().Args[1])
 				okNs = strings.HasPrefix(ns, "phi(") && strings.Contains(ns, `""`) && strings.Contains(ns, "p1")
+				// polarity: the child's namespace is what arrives across 'Namespaced', the empty one across '!Namespaced'
+				if ph, isPhi := cs.Common().Args[1].(*ssa.Phi); isPhi && okNs {
+					for i, e := range ph.Edges {
+						pred := ph.Block().Preds[i]
+						_, isConst := e.(*ssa.Const)
+						// the edge pred→phi block, or the edge into pred when pred is the 'then' block
+						polar := 0
+						check := func(b *ssa.BasicBlock, to *ssa.BasicBlock) {
+							for j, sc := range b.Succs {
+								if sc == to {
+									if l, has := engine.EdgeLit(b, j); has && strings.HasSuffix(l.Atom, ".Namespaced") {
+										polar = -1
+										if l.Pos {
+											polar = 1
+										}
+									}
+								}
+							}
+						}
+						check(pred, ph.Block())
+						if polar == 0 && len(pred.Preds) == 1 {
+							check(pred.Preds[0], pred)
+						}
+						if isConst && polar != -1 || !isConst && polar != 1 {
+							okNs = false
+						}
+					}
+				}
 			}
 			r.Check(rule, FK(f)+"[lookup-namespace]", p.Pos(f.Pos()), okNs, "namespaced parent looked up in the child's namespace, cluster-scoped one without", "parent lookup namespace is not (child namespace if parent namespaced, else empty)")
 		}
